@@ -398,3 +398,46 @@ def accumulate_exact(ctx, prog):
         ok = a == "core::slice::<impl [T]>::len(param:blockhash)"
         why = "set_len_internal(%s)" % a
     ctx.ob(R, "init_from_partial: the length becomes the input's length", ok, why, f.loc())
+
+
+def valid_normalized_shape(ctx, prog):
+    """`is_valid_and_normalized` = `is_valid()` and, for every mask of self.representation(), no run of MAX_SEQUENCE_SIZE+1
+    set bits (`has_sequences_const::<MAX_SEQUENCE_SIZE + 1>`) - the run test is delegated to the one helper with the one constant"""
+    from ..sym import path_conds, bool_atom
+    R = "SA-DELEGATE"
+    f = prog.fn("BlockHashPositionArrayData::is_valid_and_normalized")
+    ctx.visit(f)
+    sy = Sym(f)
+    alls = [(i, t) for i, t in f.calls() if callee_of(t).endswith("Iterator>::all") or callee_of(t).endswith("Iterator::all")]
+    ok = len(alls) == 1
+    why = "%d all(..) calls" % len(alls)
+    if ok:
+        i, t = alls[0]
+        # evaluated only when is_valid(self) holds
+        guarded = False
+        for c in path_conds(f, sy, i):
+            a = bool_atom(c)
+            if a and a[0] == "truth" and a[2] is True and strip(a[1])[0] == "call" and strip(a[1])[1].split("::<")[0].endswith("BlockHashPositionArrayData::is_valid"):
+                guarded = True
+        src = canon(strip(sy.origin(strip(sy.operand(t["args"][0])))))
+        src = re.sub(r"::<[^()]*>\(", "(", src)
+        cl = strip(sy.operand(t["args"][1]))
+        ok = guarded and re.match(r"^core::slice::<impl \[T\]>::iter\(\(?internals::compare::position_array::BlockHashPositionArrayData::representation\(param:self\)( as &\[u64\]\))?\)$", src) is not None \
+            and cl[0] == "agg" and cl[1].startswith("Closure:")
+        why = "is_valid guard: %s; iterates %s" % (guarded, src[:120])
+        if ok:
+            g = prog.get(cl[1][len("Closure:"):])
+            ce = strip(Sym(g).local(0)) if g else None
+            ctx.visit(g) if g else None
+            ok = ce is not None and ce[0] == "un" and ce[1] == "Not" and strip(ce[2])[0] == "call" and "has_sequences_const" in strip(ce[2])[1]
+            why += "; per mask: %s" % (show(ce)[:120] if ce else None)
+            if ok:
+                call = strip(ce[2])
+                ga = list(call[4]) if len(call) > 4 else []
+                mx = int(prog.const("block_hash::MAX_SEQUENCE_SIZE")["v"])
+                ok = any(str(mx + 1) in x or "MAX_SEQUENCE_SIZE" in x for x in ga)
+                why += "; generic args %s" % ga
+    # the false results
+    consts = [const_value(strip(sy.rvalue(s["rv"]))) for i, j, s in f.stmts() if s["s"] == "assign" and s["lhs"]["l"] == 0 and not s["lhs"]["p"]]
+    ok = ok and all(v == 0 for v in consts)
+    ctx.ob(R, "is_valid_and_normalized = is_valid() && every mask has no run of MAX_SEQUENCE_SIZE+1 bits (has_sequences_const)", ok, why, f.loc())
